@@ -100,7 +100,9 @@ CensusEv == /\ IsEv("census")
 AfterEv == /\ IsEv("after")
            /\ viol' = viol \cup (IF ~Trace[l].equal THEN V("OthersUnaffected", "the next query on the same engine differs from the baseline: " \o Trace[l].desc) ELSE {})
            /\ UNCHANGED <<cur, run, phase, open, closes, fired, stat>>
-DeadEv == /\ IsEv("dead") /\ viol' = viol \cup {<<cur.id, "ProcessDead", Trace[l].why>>} /\ UNCHANGED <<cur, run, phase, open, closes, fired, stat>>
+\* the child process that executed the scenario died (ProcessDead: C13) or made no progress for the
+\* supervisor's stall bound and was killed (ProcessHung: Exec deadlocked or never returned, C14)
+DeadEv == /\ IsEv("dead") /\ viol' = viol \cup {<<cur.id, IF Trace[l].why = "hang" THEN "ProcessHung" ELSE "ProcessDead", Trace[l].why>>} /\ UNCHANGED <<cur, run, phase, open, closes, fired, stat>>
 OtherEv == /\ l <= Len(Trace) /\ Trace[l].ev \notin {"sc", "run", "create", "execstart", "qopen", "qclose", "fired", "execret", "close", "census", "dead", "after"}
            /\ l' = l + 1 /\ UNCHANGED <<cur, run, phase, open, closes, fired, viol, stat>>
 
